@@ -69,7 +69,7 @@ CHECKS["C16"] = ("bounded-exhaustive enumeration of program templates (item kind
     "34 templates (print, INT 3, divide error, unsupported AH x first/middle/last line, inside procedures, macro bodies, nested macros; loops) x 10 layouts; every emitted instruction maps into its source line (outermost macro use, closing brace for the implied ret); all messages cite the right line number and text; about 11 000 corrupted files: the diagnostic cites the line, column and text of the offending token, also on a last line without newline.",
     "DESIGN.md section 6 C16")
 CHECKS["C19"] = ("exhaustive enumeration of all iteration orders of the undefined-label hash set (hook) on the real CLI binary; explicit-state exploration of all pairs of instruction streams x all interleavings on two machines sharing one real Interpreter object versus isolated runs; exhaustive parser histories (all line sequences up to a bound followed by each probe) on the real Preprocessor, DataParser, Interpreter and, through prompt sessions of the binary, the print reader; relational oracle throughout",
-    "38 multi-error programs under all k! iteration orders (k<=4) must print identical output; a new machine is zero except FLAGS/CS after any history; 67 000 stream pairs x all interleavings (1.1 million runs) leave each machine as when run alone; 6 700 history/probe combinations per tier answer like fresh parser objects; reruns in separate processes and an 8-thread smoke run are repetition and labelled so. Sixteen refused programs with several macros / labels / procedures / data labels each (mutual recursion, no start, duplicates, unknown names with equally near known names) rerun 8 times in separate processes.",
+    "38 multi-error programs under all k! iteration orders (k<=4) must print identical output; a new machine is zero except FLAGS/CS after any history; 67 000 stream pairs x all interleavings (1.1 million runs) leave each machine as when run alone; 6 700 history/probe combinations per tier answer like fresh parser objects; reruns in separate processes and an 8-thread smoke run are repetition and labelled so. Sixteen refused programs with several macros / labels / procedures / data labels each (mutual recursion, no start, duplicates, unknown names with equally near known names) rerun 8 times in separate processes. Every sequence of 2 and 3 whole programs out of 7 on one thread (fresh objects each) against the last program alone on a new thread.",
     "DESIGN.md section 6 C19")
 CHECKS["C15"] = ("bounded-exhaustive enumeration of input texts: all strings up to length 3 (4) over a 44-character alphabet, all sequences of up to 3 tokens over 128 grammar terminals, the complete 1-edit neighbourhoods of 13 seed programs (2-edit for short seeds), 195 pathological size/shape inputs; each text is given to the real Preprocessor / DataParser / Interpreter in child processes of the harness (abnormal ends bisected to the culprit), to the print reader through prompt sessions of the real binary, and as source files to the real binary (all byte strings up to length 1-2, families plain and -i, invalid UTF-8, 1-edit neighbourhoods)",
     "2.9 million texts in-process, 90 000 prompt lines, 5 700 source files: every one must end with a result or a diagnostic - no panic, no signal, no watchdog expiry (unless the program itself loops), memory under a ceiling, and within each size family the cost per byte must not grow more than 5-fold from one size to the next.",
